@@ -403,6 +403,11 @@ class P:
             arms = []
             while not self.at("}"):
                 pat = self.pattern()
+                if self.at("|"):
+                    # or-pattern of a match arm: `A | B | C => …`
+                    alts = [pat]
+                    while self.opt("|"): alts.append(self.pattern())
+                    pat = ("por", alts)
                 self.eat("=>")
                 body = self.expr()
                 self.opt(",")
